@@ -117,6 +117,11 @@ def spec_eq(x, y, ign):
 # packed observation -> Gallina literal of model/Equality.v's pval
 
 def hx(b: bytes) -> str:
+    """injective encoding of text / bytes content (only equality is used by the model); content longer than 64 bytes
+    is carried as its length and SHA-256"""
+    if len(b) > 64:
+        import hashlib
+        return '"#%d:%s"' % (len(b), hashlib.sha256(b).hexdigest())
     return '"%s"' % b.hex()
 
 
@@ -884,14 +889,20 @@ class Reporter:
 def python_level(ctx, rep, shards, n_blocks, block_n):
     rnd = random.Random(ctx.seed)
     total = 0
-    n = descriptor_probe(rep)
-    if rep.reported:
-        # keep going a little: a record pair makes the consequence concrete, but the descriptor pair already is an input
-        return total
-    for _ in range(n or 0):
-        ctx.count_case(("descriptor-probe", _), nontrivial=True)
+    # a failing descriptor probe is held back until the hand-picked pairs have run: a pair of RECORDS that compare
+    # wrongly is the more telling input; the descriptor pair is reported when no record pair shows the consequence
+    held = []
+    n = descriptor_probe(lambda what, k, replay: held.append((what, k, replay)))
+    for i in range(n or 0):
+        ctx.count_case(("descriptor-probe", i), nontrivial=True)
+    if held:
+        rep.prefix += held[0][0] + "; consequence on records: "
     sp = special_pairs()
     total += run_pairs(ctx, [("special:" + n, x, y) for n, x, y in sp], rnd, rep, shards)
+    if held and not rep.reported:
+        rep.prefix = rep.prefix[: -len("; consequence on records: ") - len(held[0][0])]
+        rep(*held[0])
+        return total
     for b in range(n_blocks):
         if rep.reported:
             break
@@ -939,7 +950,8 @@ def run(ctx):
         "CPython's element comparison in tuple/list/dict equality answers equal for the very same object before calling "
         "__eq__ (identity tokens of float objects in the observation); only floats have a non-reflexive ==",
         "the model's input is the packed value of every slot (FieldType._pack() output, nested records kept as objects) "
-        "as observed by the harness; text and bytes only through an injective encoding; datetime equality follows "
+        "as observed by the harness; text and bytes only through an injective encoding (hex; beyond 64 bytes length + "
+        "SHA-256, assumed collision-free); datetime equality follows "
         "CPython's datetime_richcompare incl. PEP 495 (concrete model dt_eq, validated by the value battery)",
         "dict keys (None, bool/int/float, str, bytes, tuples of those) are carried as an injective token of their equality "
         "class; other key types: pair skipped in the Coq comparison, still judged in Python",
